@@ -100,3 +100,6 @@ def nontrivial(case: dict) -> bool:
 
 
 execute = CD.execute_cells
+
+
+SIGNATURES = {"F21": CD.f21}
